@@ -67,22 +67,22 @@ type FileObs struct {
 }
 
 type Obs struct {
-	ID     int        `json:"id"`
-	Case   *Case      `json:"case"`
-	Err    string     `json:"err"`
-	Res    []int      `json:"res"`
-	Alien  int        `json:"alien"`
-	Shared int        `json:"shared"` // returned rows that changed when arrays of returned rows were appended to
+	ID     int    `json:"id"`
+	Case   *Case  `json:"case"`
+	Err    string `json:"err"`
+	Res    []int  `json:"res"`
+	Alien  int    `json:"alien"`
+	Shared int    `json:"shared"` // returned rows that changed when arrays of returned rows were appended to
 	// entry probes: one-leaf queries for entries a filter denied although a stored row under it carries them
-	Probes    int `json:"probes"`
-	ProbeLost int `json:"probe_lost"` // stored rows carrying the entry that the probe query did not return
-	Res2   []int      `json:"res2"`
-	Conc   [][]int    `json:"conc"`
-	HasPre bool       `json:"has_pre"`
-	Pre    []int      `json:"pre"`
-	PreErr string     `json:"pre_err"`
-	Blocks []BlockObs `json:"blocks"`
-	Files  []FileObs  `json:"files"`
+	Probes    int        `json:"probes"`
+	ProbeLost int        `json:"probe_lost"` // stored rows carrying the entry that the probe query did not return
+	Res2      []int      `json:"res2"`
+	Conc      [][]int    `json:"conc"`
+	HasPre    bool       `json:"has_pre"`
+	Pre       []int      `json:"pre"`
+	PreErr    string     `json:"pre_err"`
+	Blocks    []BlockObs `json:"blocks"`
+	Files     []FileObs  `json:"files"`
 	// stats of the main query
 	Matched    int    `json:"matched"`
 	StatBlocks int    `json:"stat_blocks"`
